@@ -13,7 +13,7 @@ func IsIdentifier(s string) bool {
 	for i, c := range []byte(s) {
 		if !(c == '_' || ascii.IsLetter(c) ||
 			(i > 0 && ascii.IsDigit(c)) ||
-			(i == last && (c == '?' || c == '!'))) {
+			(i > 0 && i == last && (c == '?' || c == '!'))) {
 			return false
 		}
 	}
